@@ -36,6 +36,9 @@ func init() {
 	ctxBg := func(ex *Exec, c *frame, fn *ssa.Function, a []Value) Value {
 		return opaqueIface(ex.newCtx(nil, false))
 	}
+	stdModels["regexp.MustCompile"] = func(ex *Exec, c *frame, fn *ssa.Function, a []Value) Value {
+		return ex.newOpaque("regexp")
+	}
 	stdModels["context.Background"] = ctxBg
 	stdModels["context.TODO"] = ctxBg
 
